@@ -68,6 +68,15 @@ def check_index(ctx):
     extra = [s for s in ast.walk(fn) if isinstance(s, ast.Assign) and any(is_self_attr(t, "best_arm") for t in s.targets)
              and s not in f.if_node.body and norm_src(s.value) != "None"]
     ctx.ob("R11-INDEX", not extra, c.file, q, "best_arm only set by the fold", "%s" % [norm_src(s) for s in extra], fn.lineno, nontrivial=False)
+    for m, f2 in c.methods.items():
+        if m in ("__init__", "pull"):
+            continue
+        for s2 in ast.walk(f2):
+            tg = s2.targets if isinstance(s2, ast.Assign) else ([s2.target] if isinstance(s2, (ast.AugAssign, ast.AnnAssign)) else [])
+            if any(is_self_attr(t, "best_arm") for t in tg):
+                ctx.violation("R11-MEAN", c.file, "Zooming.%s" % m, norm_src(s2),
+                              "self.best_arm is the arm receive_reward credits; %s overwrites it, so the next reward goes to an arm that was "
+                              "not pulled" % m, s2.lineno)
     # the loop body only computes the key and runs the fold
     body = [s for s in f.inner.body]
     okb = all(isinstance(s, ast.Assign) and isinstance(s.targets[0], ast.Name) or s is f.if_node for s in body)
